@@ -1373,11 +1373,15 @@ impl TestTextSelection for TextSelectionSet {
                 }
                 true
             }
-            TextSelectionOperator::Overlaps {
+            TextSelectionOperator::Embeds {
                 all: false,
                 negate: false,
+            } => {
+                // the text selection must be embedded by ANY item in this set
+                self.iter()
+                    .any(|item| item.test(operator, reftextsel, resource))
             }
-            | TextSelectionOperator::Embeds {
+            TextSelectionOperator::Overlaps {
                 all: false,
                 negate: false,
             }
@@ -1542,11 +1546,18 @@ impl TestTextSelection for TextSelectionSet {
                 }
                 true
             }
-            TextSelectionOperator::Overlaps {
+            TextSelectionOperator::Embeds {
                 all: false,
                 negate: false,
+            } => {
+                // ALL of the items in the otherset must be embedded by ANY item in this set
+                !refset.is_empty()
+                    && refset.iter().all(|reftextsel| {
+                        self.iter()
+                            .any(|item| item.test(operator, reftextsel, resource))
+                    })
             }
-            | TextSelectionOperator::Embeds {
+            TextSelectionOperator::Overlaps {
                 all: false,
                 negate: false,
             }
@@ -1820,15 +1831,21 @@ impl TestTextSelection for TextSelection {
         resource: &TextResource,
     ) -> bool {
         match operator {
+            TextSelectionOperator::Embeds {
+                all: false,
+                negate: false,
+            } => {
+                // ALL text selections in the set must be embedded by this one
+                !refset.is_empty()
+                    && refset
+                        .iter()
+                        .all(|reftextsel| self.test(operator, reftextsel, resource))
+            }
             TextSelectionOperator::Equals {
                 all: false,
                 negate: false,
             }
             | TextSelectionOperator::Overlaps {
-                all: false,
-                negate: false,
-            }
-            | TextSelectionOperator::Embeds {
                 all: false,
                 negate: false,
             }
